@@ -59,6 +59,15 @@ CHECKS = {
     "C20": ("stress (2-16 threads, 1 microsecond switch interval, barriers, fresh types) + systematic schedule injection (sys.monitoring LINE park/yield at the recursion analysis, cache and lazy-initialisation code) + differential twin oracle + invariant monitor on the recursion dictionary + eviction follow-up",
             "Exploration of schedules: held on the executed interleavings -- about 2*10^3 (quick) / 5*10^4 (thorough) distinct two-thread schedules incl. every park point of the two-member recursive cluster, hundreds / thousands of stressed clusters with 2-16 threads; every concurrent call must equal the same call on a structurally identical twin type used sequentially, recursion-cache entries must be monotone and equal ground truth at quiescence, and re-use after cache eviction must still equal the baseline. The evidence reports the measured overlap of first uses, distinct write orders and schedules (zero overlap = inconclusive).",
             "Not all schedules; tight check-then-act windows outside the analysis are only reliably reached by the thorough tier. Trusted: the twin construction (shapes without overlapping cycles), the LINE-event injector, CPython 3.12 GIL semantics.", "DESIGN §5 C20"),
+    "C12": ("boundary monitors on deserialize / serialize / *_schema with a self-referential commuting-square oracle (converted type vs erased source / target type executed by the same code), tagged converters observing which conversion ran where, placement model from the docs, jsonschema as secondary schema oracle",
+            "Exploration: every generated conversion graph (families base / multi / chain<=3 / generic / two, wrappers depth<=3, placements registered / default_conversion / dynamic / field / sub, identity, inheritance, lazy / recursive) x data agreed with its conversion-free reference on verdict, value, applied-conversion tags, serialized form and both schemas; held on the K executions reported.",
+            "Abstains on the doc-ambiguous 'registered conversion from/to a container' for non-collection classes, on unions with overlapping runtime classes (serialization), and compares only verdicts where typing / the by-type union shortcut reword errors.", "DESIGN §5 C12"),
+    "C15": ("history checker: generated constructor / deserialize / assign / set_fields / unset_fields / replace histories executed in lock step with a set-valued state machine; fields_set, is_set and serialize(exclude_unset=...) observed after each step",
+            "Exploration: every history creator.mutator^k (k<=2 quick, <=3 thorough; creators = every subset of optional init parameters by constructor and by deserialize) over 16 with_fields_set class families, plus random histories of length <=8 and the same with override_dataclass_constructors, is executed on the real classes; after each step fields_set equals the model on the dataclass fields and serialize emits exactly the set fields (all with exclude_unset=False). Exhaustive for the enumerated sub-space (exhaustive: true when not time-capped).",
+            "Trusted: the state-machine model (vf/checks/c15.py) and its two abstention zones (constructor of an undecorated dataclass subclass; always-marked fields explicitly unset before replace).", "DESIGN §5 C15"),
+    "C16": ("monitor on the key order of serialize / deserialization_schema / serialization_schema / GraphQL object and input types of generated classes; declarative ordering constraints (permutation, sorted valued elements, adjacency of attachments) + pairwise agreement of views + permutation hook on sort_by_order",
+            "Exploration: every ordering spec (none, order(v) v in {-1,0,1,999}, after/before any other element) over classes of n<=3 elements (quick; n<=4 thorough) in every split fields/methods, expressed as field metadata, class-level mapping over decoys, class-level sequence and across a base/sub pair, plus sampled n = 4/5, presence, alias and Field-object variants, is observed in five views; each observed sequence satisfies the declarative constraints and all views agree. Exhaustive for the enumerated sub-space.",
+            "Trusted: the effective-ordering resolution and constraint checker in vf/c16_model.py; sibling order and positions of elements with absent targets are unspecified (abstained, counted).", "DESIGN §5 C16"),
 }
 PLANNED = {
 }
